@@ -148,6 +148,26 @@ func (x *lruCtx) run() {
 			if okRec && t.End == EndReturn {
 				okRec = x.checkRecency(t, name, fn)
 			}
+			// a slice handed to the caller (the removed values, Keys, Items) is the caller's: it must not be
+			// backed by storage the cache keeps and rewrites on the next call
+			if okEv && t.End == EndReturn {
+				for _, r := range t.Ret {
+					if r.Typ == nil {
+						continue
+					}
+					if _, isSl := r.strip().Typ.Underlying().(*types.Slice); !isSl {
+						continue
+					}
+					base := r.strip()
+					for base.Kind == KOp && (base.Name == "append" || base.Name == "slice") {
+						base = base.Args[0].strip()
+					}
+					if base.Kind == KInit && base.Args[0].Kind == KFieldAddr && base.Args[0].Args[0].root().Key() == t.Params[0].Key() {
+						okEv = false
+						c.violated("C04.eviction", name, fn.Pos(), "the slice returned to the caller is built in storage the cache keeps ("+c.short(base.Key())+"): the next call that uses it rewrites the list this caller still holds, so the values reported as removed change after the fact (and concurrent callers race on it)", c.witness(t, len(t.Events)-1)...)
+					}
+				}
+			}
 		}
 		if nret == 0 {
 			c.undecided("C04.paths", name, fn.Pos(), "no returning path")
